@@ -127,6 +127,11 @@ def gen_cfg(rng, prop, tier, allow_big=True):
         big = True
         n_nodes = (rng.randint(992, 1008) if rng.random() < 0.5 else rng.randint(1030, 1250)) + 6
         length = rng.randint(2, 5)
+    mixed = prop == "C01" and not big and rng.random() < 0.05
+    if mixed:
+        # nodes of both mixins in one universe: attaching across the two is refused by the library (with an
+        # AttributeError, after the detach step) - whatever it does, the forest must stay consistent
+        menu = tuple(rng.choice(NODE_MENUS)) + tuple(rng.choice(LIGHT_MENUS))
     classes = []
     targets = []
     for i in range(n_nodes):
@@ -143,9 +148,10 @@ def gen_cfg(rng, prop, tier, allow_big=True):
         "targets": targets,
         # deep: one chain, plus three separate parent/child pairs that can be moved below its far end
         "init_parents": ([None] + list(range(n_nodes - 7)) + [None, n_nodes - 6, None, n_nodes - 4, None, n_nodes - 2])
-        if deep else gen_init_forest(rng, n_nodes, big),
+        if deep else ([None] * n_nodes if mixed else gen_init_forest(rng, n_nodes, big)),
         "big": big,
         "deep": deep,
+        "mixed": mixed,
         "L": length,
         "obs": 1,
         "observe_hooks": False,
@@ -156,7 +162,7 @@ def gen_cfg(rng, prop, tier, allow_big=True):
     if w["parent"] + w["children"] + w["del"] == 0:
         w["parent"] = w["children"] = 1
     cfg["w"] = w
-    cfg["allow_nn"] = family == "node" and rng.random() < 0.6
+    cfg["allow_nn"] = family == "node" and rng.random() < 0.6 and not mixed  # (LightNodeMixin does not vet its arguments)
     if prop == "C01":
         cfg["acts"] = rng.random() < 0.25  # hooks that move an unrelated node while the call is in flight
         cfg["profile"] = wchoice(rng, (("none", 15), ("once", 40), ("multi", 20), ("persist", 25)))
@@ -821,6 +827,19 @@ def run(cfg, ops=None, rng=None, extra=None, pre_gen=None, handle=None):
                     "step %d %s: AssertionError: %s" % (step, op, exc),
                 )
             last = step == length - 1
+            if cfg.get("mixed"):
+                # no reference prediction across the two mixins: the invariant alone decides, then the model follows
+                post = world.snapshot()
+                h.update(repr(post).encode())
+                res.states.add(stable_hash(post))
+                res.bump("mixed_family_ops")
+                bad = invariants.check_forest(world)
+                if bad:
+                    clause, _ = bad[0]
+                    raise Violation(prop, clause, step, "%s:%s:mixed" % (clause, op["op"]),
+                                    "after step %d %s (outcome: %s; nodes of both mixins): %s" % (step, op, excname or "returned", "; ".join(d for _, d in bad[:3])))
+                model.load(post)
+                continue
             observe = (
                 prop != "C01"
                 or status == "exc"
